@@ -68,7 +68,9 @@ def scenario(connected, cleanup_attr):
         attrs = {} if cleanup_attr is None else {"cleanup_unused": cleanup_attr}
         irctx = SObj(ir.Concurrent, __stmt__=stmt, __events__=[("dir", sig, R), ("dir", T, W)], attributes=attrs)
         leaf = SObj(OUT.EntityTemplate, f_leaf=True)
-        inst = SObj(OUT.Entity, f_template=leaf, f_ports={"a": T if connected else sig, "y": sig}, _info=SObj(_Info, name="Leaf"))
+        # the actual: the intermediate itself, a slice / view of it (its own object, same root), or a plain signal
+        actual = T if connected is True else SObj(Temporary, _root=T, _ref_spec=["slice"], f_tag="T[5:2]") if connected == "slice" else sig
+        inst = SObj(OUT.Entity, f_template=leaf, f_ports={"a": actual, "y": sig}, _info=SObj(_Info, name="Leaf"))
         top = SObj(OUT.EntityTemplate, f_subblocks=[inst], f_contexts=[SObj(OUT.Concurrent, f_ir=irctx)], _info="INFO")
         top.fields["f_T"], top.fields["f_irctx"], top.fields["f_leaf"] = T, irctx, leaf
         return top
@@ -102,8 +104,8 @@ def scenario_spec(connected, cleanup_attr):
 
 
 con = contract("cohdl._compiler.frontend._generate_ir:ConvertInstance.apply", PROPS)
-for connected, cleanup_attr in ((True, None), (False, None), (True, False), (True, True)):
-    c = Case(f"instance-actual-is-{'the-intermediate' if connected else 'a-signal'},cleanup_unused={cleanup_attr}",
+for connected, cleanup_attr in ((True, None), (False, None), (True, False), (True, True), ("slice", None)):
+    c = Case(f"instance-actual-is-{'the-intermediate' if connected is True else 'a-slice-of-the-intermediate' if connected else 'a-signal'},cleanup_unused={cleanup_attr}",
              [Built([], lambda env: SObj(GI.ConvertInstance), lambda a: "None", lambda a: None), scenario(connected, cleanup_attr)], scenario_spec(connected, cleanup_attr))
     c.native = False
     c.models = [(GI.IrGenerator.__dict__["convert_concurrent"].__func__, _convert_concurrent)]
@@ -121,6 +123,58 @@ for connected, cleanup_attr in ((True, None), (False, None), (True, False), (Tru
         it.leaf, it.cached = top.fields["f_leaf"], SObj(ir.EntityTemplate, f_tag="leaf (cached)")
 
     c.setup = setup
+    con.cases.append(c)
+
+
+# ---- sequential contexts: the definite-assignment analysis always runs, before any clean-up pass -----------------------------
+# (the context attributes cleanup_unused / cleanup_bool_cast switch cosmetic passes off, never the C08 check)
+def seq_spec(attrs):
+    def spec(sx, self, inp):
+        it = sx.it
+        irctx = sx.real_args[1].fields["f_ir"]
+
+        def holds(res):
+            if res is not irctx and not (isinstance(res, SObj) and res.fields.get("f_from") is irctx):
+                return False
+            want = [("detect", irctx)]
+            if attrs.get("cleanup_unused", True):
+                want.append(("cleanup_unused", irctx))
+            if attrs.get("cleanup_bool_cast", True):
+                want.append(("cleanup_bool_cast", irctx))
+            return len(it.passes) == len(want) and all(a[0] == b[0] and a[1] is b[1] for a, b in zip(it.passes, want))
+
+        return C.Pred(holds, "detect_uninitialized_temporaries runs first and unconditionally; the clean-up passes as selected")
+
+    return spec
+
+
+def _pass(name):
+    def model(it, ctx, *a, **k):
+        it.passes.append((name, ctx))
+        return ctx
+
+    return model
+
+
+for attrs in ({}, {"cleanup_unused": False}, {"cleanup_bool_cast": False}, {"cleanup_unused": False, "cleanup_bool_cast": False}):
+    def mk_seq(env, attrs=attrs):
+        return SObj(OUT.Sequential, f_ir=SObj(ir.Sequential, attributes=dict(attrs), __events__=[]))
+
+    c = Case("sequential-context,attributes=" + (",".join(f"{k}={v}" for k, v in attrs.items()) or "default"),
+             [Built([], lambda env: SObj(GI.ConvertInstance), lambda a: "None", lambda a: None), Built([], mk_seq, lambda a: "None", lambda a: None)], seq_spec(attrs), props=("C08",))
+    c.native = False
+    c.models = [
+        (GI.IrGenerator.__dict__["convert_sequential"].__func__, _convert_concurrent),
+        (GI.ConvertInstance.__dict__["detect_uninitialized_temporaries"].__func__, _pass("detect")),
+        (GI.ConvertInstance.__dict__["cleanup_unused"].__func__, _pass("cleanup_unused")),
+        (GI.ConvertInstance.__dict__["cleanup_bool_cast"].__func__, _pass("cleanup_bool_cast")),
+    ]
+
+    def setup_seq(it, ctx, args, env):
+        it.passes = []
+        it.call(I.BoundMethod(GI.ConvertInstance.__dict__["__init__"], args[0]), [], {})
+
+    c.setup = setup_seq
     con.cases.append(c)
 
 
